@@ -162,6 +162,14 @@ let minigo_line l =
     | "i" -> let c = cond () in let a = stmt () in let b = stmt () in SIf (c, a, b)
     | "w" -> let c = cond () in let b = stmt () in SWhile (c, b)
     | "r" -> SReturn (atom ())
+    | "v" -> let k = next () in let x = var_of k in let ik = nexti () in let j = nexti () in
+             SConv (x, nat_of_int ik, nat_of_int j)
+    | "j" -> let cs = nexti () in let d = nexti () in
+             let k = next () in let x = if k = "-" then None else Some (var_of k) in
+             let k2 = next () in let xi = var_of k2 in
+             let ik = nexti () in let m = nexti () in let n = nexti () in
+             let args = List.init n (fun _ -> atom ()) in
+             SCallI (nat_of_int cs, nat_of_int d, x, xi, nat_of_int ik, nat_of_int m, args)
     | t -> failwith ("stmt " ^ t) in
   let _ = next () in let nb = nexti () in
   let _ = next () in let ng = nexti () in
@@ -175,13 +183,20 @@ let minigo_line l =
   let metaa = Array.of_list !meta in
   let ctr f = let i = int_of_nat f in i < Array.length metaa && snd metaa.(i) in
   let pk f = let i = int_of_nat f in if i < Array.length metaa then nat_of_int (fst metaa.(i)) else O in
-  let prog = { p_funcs = funcs; p_ginit = ginit } in
+  (* optional tail: I <nimpls> { <nmethods> f* }* *)
+  let impls =
+    if !pos < Array.length toks && toks.(!pos) = "I" then begin
+      let _ = next () in
+      let n = nexti () in
+      List.init n (fun _ -> let nm = nexti () in List.init nm (fun _ -> nat_of_int (nexti ())))
+    end else [] in
+  let prog = { p_funcs = funcs; p_ginit = ginit; p_impls = impls } in
   let prod = function PNil -> "0,0" | PNever -> "1,0" | PStale -> "1,1" | PSite s -> Printf.sprintf "2,%d" (int_of_nat (enc s)) in
   let cons = function CAlways -> "0,0" | CSite s -> Printf.sprintf "2,%d" (int_of_nat (enc s)) in
   let trig t = Printf.sprintf "%d,%s,%s,%d" (int_of_nat t.s_id) (prod t.s_prod) (cons t.s_cons)
       (match t.s_ctrl with None -> -1 | Some s -> int_of_nat (enc s)) in
   let trigs ts = String.concat ";" (List.map trig ts) in
-  let wf = wf_program prog && ctr_arity ctr O funcs in
+  let wf = wf_program prog && ctr_arity ctr O funcs && impls_plain prog ctr in
   let afuel = nat_of_int 64 in
   let an = analyze_program afuel ctr pk prog in
   let head = match an with
@@ -189,7 +204,7 @@ let minigo_line l =
     | Some r ->
         Printf.sprintf "wf=%d guarded=%d an=1 gsafe=%d clocal=%d | %s | %s | %s" (if wf then 1 else 0) (if guarded prog then 1 else 0) (if r.r_gsafe then 1 else 0)
           (if r.r_clocal then 1 else 0) (trigs r.r_decl)
-          (String.concat " / " (List.map trigs r.r_funcs)) (String.concat " / " (List.map trigs r.r_dups)) in
+          (String.concat " / " (List.map trigs r.r_funcs)) (String.concat " / " (List.map trigs (r.r_dups @ r.r_affil))) in
   let inferred = String.concat "," (List.concat (List.mapi (fun i fd -> if infer_sem (nat_of_int 64) fd then [string_of_int i] else []) funcs)) in
   let head = head ^ " | " ^ inferred in
   let xfuel = nat_of_int 20000 in
